@@ -205,6 +205,14 @@ def execute(case):
             else: arg = idx
             res.cls(f"rows-as:{type(arg).__name__}")
             out = getattr(df, op)(rows=arg)
+            if isinstance(arg, np.ndarray) and np.asarray(arg).tolist() != idx:
+                # the caller's index vector is the caller's: used again (on this or another frame) it must still name the same positions
+                res.violate(f"{op}:index-argument-changed", f"{op}(rows={idx} as {form}) left its argument as {np.asarray(arg).tolist()}")
+            elif isinstance(arg, np.ndarray) and idx:
+                again = getattr(df, op)(rows=arg)
+                if canon.frame_cells(again) != canon.frame_cells(out):
+                    res.violate(f"{op}:second-call-with-same-argument-differs", f"{op}(rows={idx} as {form}) twice with the same array gave different rows")
+                res.count("index-argument-reused")
             if any(i < 0 for i in idx): res.cls("slice:negative-positions")
             if op == "slice":
                 expected = [i % nrow for i in idx] if nrow else []
